@@ -90,6 +90,11 @@ def main(argv=None):
     if args.replay:
         try:
             return replay(prop, args.replay)
+        except BaseException as e:
+            if isinstance(e, (KeyboardInterrupt, SystemExit)):
+                raise
+            print(f"HARNESS-ERROR property={prop} replay failed: {type(e).__name__}: {e}")
+            return 2
         finally:
             core.cleanup_scratch()
 
@@ -100,6 +105,14 @@ def main(argv=None):
         return _run(prop, args, base_seed, t0)
     except core.HarnessError as e:
         print(f"HARNESS-ERROR property={prop} {e}")
+        return 2
+    except BaseException as e:  # the harness could not cope (e.g. an API it drives has changed): never exit 1
+        if isinstance(e, (KeyboardInterrupt, SystemExit)):
+            raise
+        import traceback
+
+        print(f"HARNESS-ERROR property={prop} unexpected {type(e).__name__}: {e}")
+        traceback.print_exc()
         return 2
     finally:
         core.cleanup_scratch()
